@@ -210,11 +210,32 @@ def check(ctx):
     rec_ok = False
     imp_ok = False
     nrec = 0
+    cres = sem.class_resolver(f._cls)
+
+    def recursive_args(ev):
+        """the arguments of the recursive call this event makes: directly, or through a helper method that is handed the arguments
+        and calls lookup_in_modules with them"""
+        if sem.callee_name(ev[2]) == f.name:
+            return list(ev[3].args)
+        h = cres(ev[2])
+        if h is None or h is f or ev[3].keywords:
+            return None
+        hp = [a.arg for a in h.args.args]
+        if hp and hp[0] in ('self', 'cls'):
+            hp = hp[1:]
+        if len(hp) != len(ev[3].args):
+            return None
+        bind = dict(zip(hp, ev[3].args))
+        for c_ in walk_no_nested(h):
+            if isinstance(c_, ast.Call) and sem.callee_name(c_) == f.name and not c_.keywords and all(isinstance(a, ast.Name) and a.id in bind for a in c_.args):
+                return [bind[a.id] for a in c_.args]
+        return None
     for p in allp:
         for ev in p.events:
-            if ev[0] == 'call' and sem.callee_name(ev[2]) == 'lookup_in_modules' and len(ev[3].args) >= 4:
+            ra = recursive_args(ev) if ev[0] == 'call' and len(ev) > 3 else None
+            if ra is not None and len(ra) >= 4:
                 nrec += 1
-                a2, a3 = sem.ctext(ev[3].args[2]), ev[3].args[3]
+                a2, a3 = sem.ctext(ra[2]), ra[3]
                 if a2 == 'ARG2' and isinstance(a3, ast.Name) and '@' in a3.id:
                     rec_ok = True
                     # on this path the import list of that module was found to contain the name
